@@ -489,8 +489,17 @@ func (a *float32Array) get(idx int) Value {
 	return floatToValue(float64(*(a.ptr(idx))))
 }
 
+// getRaw is only used by indexOf / lastIndexOf / includes, which compare VALUES: +0 and -0 are equal and (for
+// includes) every NaN equals NaN, whatever its payload.
 func (a *float32Array) getRaw(idx int) uint64 {
-	return uint64(math.Float32bits(*(a.ptr(idx))))
+	f := *(a.ptr(idx))
+	if f == 0 {
+		return 0
+	}
+	if f != f {
+		return uint64(math.Float32bits(float32(math.NaN())))
+	}
+	return uint64(math.Float32bits(f))
 }
 
 func (a *float32Array) set(idx int, value Value) {
@@ -529,9 +538,13 @@ func (a *float32Array) swap(i, j int) {
 }
 
 func (a *float32Array) typeMatch(v Value) bool {
-	switch v.(type) {
-	case valueInt, valueFloat:
-		return true
+	switch v := v.(type) {
+	case valueInt:
+		return float64(float32(v)) == float64(v)
+	case valueFloat:
+		// a value that is not exactly representable as float32 equals no element
+		f := float64(v)
+		return f != f || float64(float32(f)) == f
 	}
 	return false
 }
@@ -556,7 +569,14 @@ func (a *float64Array) get(idx int) Value {
 }
 
 func (a *float64Array) getRaw(idx int) uint64 {
-	return math.Float64bits(*(a.ptr(idx)))
+	f := *(a.ptr(idx))
+	if f == 0 {
+		return 0
+	}
+	if f != f {
+		return math.Float64bits(math.NaN())
+	}
+	return math.Float64bits(f)
 }
 
 func (a *float64Array) set(idx int, value Value) {
@@ -647,8 +667,9 @@ func (a *bigInt64Array) swap(i, j int) {
 }
 
 func (a *bigInt64Array) typeMatch(v Value) bool {
-	if _, ok := v.(*valueBigInt); ok {
-		return true
+	if b, ok := v.(*valueBigInt); ok {
+		// a BigInt outside the element range equals no element (toRaw would wrap it around)
+		return (*big.Int)(b).IsInt64()
 	}
 	return false
 }
@@ -703,8 +724,8 @@ func (a *bigUint64Array) swap(i, j int) {
 }
 
 func (a *bigUint64Array) typeMatch(v Value) bool {
-	if _, ok := v.(*valueBigInt); ok {
-		return true
+	if b, ok := v.(*valueBigInt); ok {
+		return (*big.Int)(b).IsUint64()
 	}
 	return false
 }
